@@ -250,8 +250,11 @@ def step(kind, obj, ps, ev, part, case):
     except InvalidSelectorError:
         reason = blocked_reason(kind, before, subst_selectors(kind, ev["s"]))
         if reason:
-            part.outcome("blocked-by:" + reason)
-            part.notes["blocked-by:" + reason] += 1
+            # every selector of the event addresses something: the operation must not refuse it (the defect that used to block selectors through embedded
+            # objects on library objects is repaired, so this is no longer attributed to C08 but reported here)
+            part.outcome("valid-selector-REFUSED")
+            part.violation("C07/valid-selector-refused/%s/%s" % (ev["op"], reason.split("/")[-1]), "a marking operation refuses a selector that addresses something in the object", case,
+                           "operation applied", "InvalidSelectorError")
         else:
             part.outcome("InvalidSelectorError")
         return None
@@ -316,7 +319,8 @@ def queries(kind, obj, ps, part, case):
                     reason = blocked_reason(kind, v, sels)
                     part.outcome("query-blocked-by:" + reason if reason else "query-InvalidSelectorError")
                     if reason:
-                        part.notes["blocked-by:" + reason] += 1
+                        part.violation("C07/valid-selector-refused/get_markings/%s" % reason.split("/")[-1], "a query refuses a selector that addresses something in the object",
+                                       dict(case, query=["get", sels]), "answer", "InvalidSelectorError")
                     else:
                         part.violation("C07/query-refused", "selector of the object refused by a query", dict(case, query=["get", sels]), "answer", "InvalidSelectorError")
                     got = None
@@ -375,8 +379,9 @@ def run_history(kind, history, part, tier, expand=True, final_queries=True, layo
         reason = blocked_reason(kind, BASES[kind], [s for s, m in ps if s is not None])
         if not reason:
             raise
-        part.outcome("blocked-by:" + reason)
-        part.notes["blocked-by:" + reason] += 1
+        part.outcome("valid-selector-REFUSED")
+        part.violation("C07/valid-selector-refused/construction/%s" % reason.split("/")[-1], "an object whose granular markings address existing content cannot be built",
+                       {"kind": kind, "history": list(history), "tier": tier}, "object", "InvalidSelectorError")
         return []
     if layout is not None:
         ps = MS.pairs_of(view(obj))[0]
